@@ -12,6 +12,7 @@ Woven text per function F with C parameters p1..pn:
 
 and, after the header of the k-th loop of F (textual order):  LOOP_F_k
 """
+import os
 import re
 import extract as X
 from extract import ExtractionError
@@ -24,7 +25,7 @@ class Fn:
                  throws=False, propagate=(), dummy_ret=None, must=None,
                  call_index=(), lambda_marker=None, pnames=None, static_fn=True,
                  byref_return=False, extra_pre="", extra_post="", kind="function",
-                 expr_rx=None, expr_in_header=False, drop=(), subst_post=(), ctor=False, brace_call=None):
+                 expr_rx=None, expr_in_header=False, drop=(), subst_post=(), ctor=False, brace_call=None, auto=False):
         self.__dict__.update(locals())
         del self.__dict__["self"]
         self.must = dict(must or {})
@@ -34,6 +35,9 @@ def emit_fn(fn):
     """Returns (c_text, report)."""
     if fn.kind == "lambda":
         loc = X.locate_lambda_body(fn.file, fn.scopes, fn.name, fn.lambda_marker)
+    elif fn.kind == "arg":
+        loc = X.locate_call_arg(fn.file, fn.scopes, fn.name, fn.expr_rx, arg_index=fn.occurrence,
+                                in_header=fn.expr_in_header, params_hint=fn.params_hint)
     elif fn.kind == "expr":
         loc = X.locate_expr(fn.file, fn.scopes, fn.name, fn.expr_rx,
                             occurrence=fn.occurrence, in_header=fn.expr_in_header,
@@ -52,7 +56,7 @@ def emit_fn(fn):
         if n == 0:
             raise ExtractionError("%s: drop pattern %r did not fire" % (fn.key, pat))
 
-    if fn.kind == "expr":
+    if fn.kind in ("expr", "arg"):
         body = "return " + body + ";"
     if fn.ctor:
         init, n = X.ctor_init_statements(loc.header)
@@ -66,6 +70,7 @@ def emit_fn(fn):
     if fn.throws or re.search(r"\bthrow\b", X.blank_comments_and_strings(body)):
         body, n = X.r_throw(body); note("R9_throw", n)
     body, n = X.r_cast(body); note("R1_cast", n)
+    body, n = X.r_std_algorithms(body); note("R16_algorithms", n)
     body, n = X.r_sizeof_decltype(body); note("R13_decltype", n)
     body, f = X.r_subst(body, list(fn.subst)); note("R4_subst", sum(c for _, c in f))
     body, n = X.r_std(body); note("R2_std", n)
@@ -173,6 +178,62 @@ def emit_fn(fn):
     return text, report
 
 
+C_KEYWORDS = {"if", "for", "while", "switch", "return", "sizeof", "do", "else", "case", "assert", "defined"}
+LIBC_OK = {"memcpy", "memset", "memmove", "malloc", "calloc", "free", "truncf", "trunc", "truncl", "floor", "floorf", "ceil", "ceilf",
+           "round", "roundf", "lrint", "lrintf", "lround", "lroundf", "fabs", "fabsf", "fmin", "fminf", "fmax", "fmaxf", "sqrt", "sqrtf",
+           "rint", "rintf", "nearbyint", "nearbyintf", "fmod", "fmodf", "_pdep_u64", "ipow", "round_pow2"}
+
+
+def map_cxx_type(t, subst):
+    """C++ parameter / return type -> C type through the unit's substitution table; None if it cannot be expressed."""
+    t = " ".join(t.split())
+    try:
+        t, _ = X.r_subst(t, [e if len(e) > 3 else (e[0], e[1], 0) for e in [(x[0], x[1], 0) + tuple(x[3:]) for x in subst]])
+    except ExtractionError:
+        return None
+    t, _ = X.r_std(t)
+    t = re.sub(r"\b(COVFIE_DEVICE|static|constexpr|inline|const|typename)\b", " ", t)
+    ref = "&" in t
+    t = t.replace("&", " ")
+    t = " ".join(t.split())
+    if not re.match(r"^[A-Za-z_]\w*( ?\*)*$", t):
+        return None
+    return t
+
+
+def auto_helper(name, parent, known_subst):
+    """Try to extract a helper function `name` that `parent` calls and that lives in the same file/struct."""
+    loc = None
+    for scopes in (parent.scopes[:1], parent.scopes[:2], []):
+        try:
+            loc = X.locate(parent.file, scopes, name)
+            break
+        except ExtractionError:
+            continue
+    if loc is None:
+        return None
+    hdr = X.blank_comments_and_strings(loc.header)
+    if re.search(r"\btemplate\b", hdr):
+        raise ExtractionError("helper %s called by %s is a function template: not extractable" % (name, parent.key))
+    i = hdr.rindex(name)
+    ret = map_cxx_type(hdr[:i], known_subst)
+    if ret is None:
+        raise ExtractionError("helper %s: return type %r not expressible in C" % (name, " ".join(hdr[:i].split())))
+    ptypes, pnames = [], []
+    for part in X.split_args(X.blank_comments_and_strings(loc.params_text)):
+        m = re.match(r"(?s)(.*?)([A-Za-z_]\w*)\s*$", part.strip())
+        if not m:
+            raise ExtractionError("helper %s: cannot parse parameter %r" % (name, part))
+        ty = map_cxx_type(m.group(1), known_subst)
+        if ty is None:
+            raise ExtractionError("helper %s: parameter type %r not expressible in C" % (name, m.group(1).strip()))
+        ptypes.append(ty)
+        pnames.append(m.group(2))
+    vec_types = [v for v in ("IN_VEC_T", "ND_SIZE_T", "OUT_VEC_T", "B_IN_VEC_T") ]
+    return Fn(name, parent.file, parent.scopes[:1] if parent.scopes else [], name, ret=ret, ptypes=ptypes, pnames=pnames,
+              vec_types=vec_types, subst=known_subst, throws=False, auto=True)
+
+
 class Unit:
     """A C translation unit: prelude + contracts + extracted functions + harness file."""
 
@@ -194,8 +255,48 @@ class Unit:
         for s in self.stubs:
             parts.append('#include "%s/%s"' % (verif_root, s))
         reports = []
-        for fn in self.fns:
+        # text of everything hand-written that the unit includes: names defined there are "known"
+        known_text = ""
+        for rel in ["stubs/prelude.h", "stubs/types.h", "stubs/stream.h", "stubs/backend_io.h", "contracts/binary_io.h", "contracts/layer_common.h",
+                    self.contracts, self.harness] + list(self.stubs) + list(self.pre_includes):
+            try:
+                known_text += open(os.path.join(verif_root, rel)).read()
+            except OSError:
+                pass
+        keys = set(f.key for f in self.fns)
+        all_subst = []
+        for f in self.fns:
+            for e in f.subst:
+                if e not in all_subst:
+                    all_subst.append(e)
+        emitted = []
+        queue = list(self.fns)
+        done_helpers = set()
+        while queue:
+            fn = queue.pop(0)
             t, r = emit_fn(fn)
+            emitted.append((fn, t, r))
+            body = X.blank_comments_and_strings(t)
+            for m in re.finditer(r"(?<![A-Za-z_0-9.>])([A-Za-z_]\w*)\s*\(", body):
+                nm = m.group(1)
+                if nm in keys or nm in C_KEYWORDS or nm in LIBC_OK or nm in done_helpers:
+                    continue
+                if nm.startswith(("__", "VERIF_", "verif_", "nondet_", "CONTRACT_", "LOOP_", "istream_", "ostream_", "backend_")) or nm.isupper():
+                    continue
+                if re.search(r"\b" + re.escape(nm) + r"\s*\(", known_text) or re.search(r"#define\s+" + re.escape(nm) + r"\b", known_text):
+                    continue
+                if re.match(r"^[A-Z_0-9]+$", nm) or nm.endswith("_T") or nm in ("size_t", "uint32_t", "uint64_t", "float", "double", "int", "unsigned", "char"):
+                    continue
+                done_helpers.add(nm)
+                h = auto_helper(nm, fn, all_subst)
+                if h is not None:
+                    keys.add(nm)
+                    queue.append(h)
+        # helpers first (they are called by the functions that discovered them)
+        ordered = [e for e in emitted if e[0].auto] + [e for e in emitted if not e[0].auto]
+        for fn, t, r in ordered:
+            if fn.auto:
+                r["auto_extracted_helper"] = True
             parts.append(t)
             reports.append(r)
         parts.append('#include "%s/%s"' % (verif_root, self.harness))
